@@ -28,6 +28,39 @@
 (***************************************************************************)
 EXTENDS Integers, Sequences, FiniteSets
 
+(***************************************************************************)
+(* A reject may be given as a concrete message m = (wc-1)*8 + rs > 0:      *)
+(*   wire reject code wc: 1 REJECT_INVALID, 2 REJECT_NONSTANDARD,          *)
+(*     3 REJECT_INSUFFICIENTFEE, 4 REJECT_DUPLICATE, 5 any other code      *)
+(*     (malformed, obsolete, dust, checkpoint);                            *)
+(*   reason rs: 1 "txn-mempool-conflict", 2 "txn-already-in-mempool",      *)
+(*     3 "txn-already-known" (bitcoind), 4 "... already spent ...",        *)
+(*     5 "already have transaction", 6 "transaction already exists" (btcd),*)
+(*     7 a reason none of these, 8 the empty reason.                       *)
+(* What such a message SAYS is taken from bitcoind / btcd, not from the    *)
+(* code under test: INVALID and NONSTANDARD call the transaction invalid   *)
+(* whatever the reason; DUPLICATE means "I have this transaction or one    *)
+(* that conflicts with it" and calls it invalid only with a reason that    *)
+(* names a conflict (1, 4); with reasons 2, 5 the peer has it in its       *)
+(* mempool, with 3, 6 in the chain; with any other reason (7, 8: e.g.      *)
+(* bitcoind's txn-same-nonwitness-data-in-mempool) it does NOT call it     *)
+(* invalid and is not a refusal beyond doubt.  Other codes: a refusal; as  *)
+(* to "invalid" both readings are allowed (counted where that excuses the  *)
+(* code, not counted where it would demand something of it).               *)
+(* act.m = 0 (or no field m): the reject is given by its class act.code.   *)
+(***************************************************************************)
+WC(m) == (m - 1) \div 8 + 1
+RS(m) == m - 8 * ((m - 1) \div 8)
+MsgOf(act) == IF "m" \in DOMAIN act THEN act.m ELSE 0
+
+\* calls the tx invalid under SOME reading / under EVERY reading
+InvSome(act) == LET m == MsgOf(act) IN
+  IF m = 0 THEN act.code = 1
+  ELSE WC(m) \in {1, 2, 5} \/ (WC(m) = 4 /\ RS(m) \in {1, 4})
+InvAll(act) == LET m == MsgOf(act) IN
+  IF m = 0 THEN act.code = 1
+  ELSE WC(m) \in {1, 2} \/ (WC(m) = 4 /\ RS(m) \in {1, 4})
+
 AbsInit == [R |-> {}, J |-> {}, Inv |-> {}, any |-> {},
             G |-> {}, open |-> {}, shut |-> {}, hard |-> {}, soft |-> {},
             inv |-> {}, ninv |-> {}]
@@ -35,6 +68,9 @@ AbsInit == [R |-> {}, J |-> {}, Inv |-> {}, any |-> {},
 \* classes that mean "the peer refuses the transaction" beyond doubt
 \* (Mempool = it already has it, Confirmed = it is in the chain: not refusals)
 HardCodes == {1, 2, 5}
+Hard(act) == LET m == MsgOf(act) IN
+  IF m = 0 THEN act.code \in HardCodes
+  ELSE WC(m) \in {1, 2, 3, 5} \/ (WC(m) = 4 /\ RS(m) \in {1, 4})
 
 AbsNext(a, act, o2) ==
   IF act.op = "Delay"
@@ -44,16 +80,16 @@ AbsNext(a, act, o2) ==
            inTime == act.kind = "R" /\ p \in a.open
        IN  [R    |-> IF act.kind = "G" /\ p \notin a.any THEN a.R \cup {p} ELSE a.R,
             J    |-> IF act.kind = "R" THEN a.J \cup {p} ELSE a.J,
-            Inv  |-> IF act.kind = "R" /\ act.code = 1 THEN a.Inv \cup {p} ELSE a.Inv,
+            Inv  |-> IF act.kind = "R" /\ InvSome(act) THEN a.Inv \cup {p} ELSE a.Inv,
             any  |-> a.any \cup {p},
             \* second reading, for the opposite direction (see Viol):
             G    |-> IF act.kind = "G" THEN a.G \cup {p} ELSE a.G,
             open |-> IF act.kind = "G" /\ p \notin a.shut THEN a.open \cup {p} ELSE a.open,
             shut |-> a.shut,
-            hard |-> IF inTime /\ act.code \in HardCodes THEN a.hard \cup {p} ELSE a.hard,
-            soft |-> IF inTime /\ act.code \notin HardCodes THEN a.soft \cup {p} ELSE a.soft,
-            inv  |-> IF inTime /\ act.code = 1 THEN a.inv \cup {p} ELSE a.inv,
-            ninv |-> IF inTime /\ act.code # 1 THEN a.ninv \cup {p} ELSE a.ninv]
+            hard |-> IF inTime /\ Hard(act) THEN a.hard \cup {p} ELSE a.hard,
+            soft |-> IF inTime /\ ~Hard(act) THEN a.soft \cup {p} ELSE a.soft,
+            inv  |-> IF inTime /\ InvAll(act) THEN a.inv \cup {p} ELSE a.inv,
+            ninv |-> IF inTime /\ ~InvAll(act) THEN a.ninv \cup {p} ELSE a.ninv]
 
 FailureJustified(a, thr) ==
   \/ a.R \subseteq a.J
